@@ -5,7 +5,7 @@ add('C20', 'Hypothesis generated states + round-trip / reference-cubic (Vieta de
     'as a zero-slope inflection. Exploration only: no absence proof.',
     'Trusted: R(J/mol/K) from pmutt.constants (judged by C12), float64 arithmetic of the oracle; near-critical states judged at 1e-3.',
     'DESIGN.md 3/C20')
-add('C17', 'Hypothesis model-based operation sequences (insert/pop/reload histories) vs exact integral reference model',
+add('C17', 'Hypothesis model-based operation sequences (insert/pop/reload histories) vs exact integral reference model; thorough tier adds coverage-guided atheris (libFuzzer) campaigns over the same histories and invariant',
     'Generated histories of construction + up to 6 insert/pop/pop(0)/reload operations on PiecewiseCovEffect, with an invariant after every '
     'step: breakpoints ascending, (breakpoint, slope) multiset equal to the model, value at coverages on/between/beyond breakpoints at two '
     'temperatures equal to the exactly integrated reference, continuity at every breakpoint, zero S/Cv/Cp, unchanged by dict and JSON reload. '
@@ -125,7 +125,7 @@ add('C15', 'Hypothesis generated workbooks (grid of headers and cells written wi
     '(walking the columns in sheet order), also when the same rows are read again in reversed order in the same process (no value leaks between rows or calls). Exploration only.',
     'Trusted: pandas/openpyxl cell semantics (cells they treat as missing or re-type are not generated / compared numerically); the presets table as data.',
     'DESIGN.md 3/C15')
-add('C06', 'Hypothesis generated mechanisms (sites, species, reactions, run conditions, writer options) + reference parsers of the written files, recomputation of every printed number, read-back with read_reactions',
+add('C06', 'Hypothesis generated mechanisms (sites, species, reactions, run conditions, writer options) + reference parsers of the written files, recomputation of every printed number, read-back with read_reactions; thorough tier adds coverage-guided atheris (libFuzzer) campaigns over the same mechanisms and oracles',
     'Mechanisms with 1-3 catalyst sites (shared or distinct bulk), gas species, adsorbates with occupancies, vacancy and bulk species and 1-10 reactions (adsorption with sticking coefficient, '
     'surface steps with/without TS, gas reactions) are written with every activation-method name, energy unit, site-density operation, MW flag, float format and delimiter pair; gas.inp, '
     'surf.inp, EAs.inp, EAg.inp, T_flow.inp and tube_mole.inp are parsed by keyword/slash-based reference parsers: every element, species, site, adsorbate (with occupancy), bulk species and '
